@@ -287,7 +287,24 @@ func lookupNamesRule(P *Program, R *Report) {
 				return desc(a.V) == "<revocation.Proof>.Responses[global:revocation.secretNames[#i]]" && a.Want == NonNil
 			}}
 		}}}
+		// (as written, or - if the name list reached it as an argument - for every call of it, with the parameters bound)
 		m := fa.inFn(vs, AcceptTrue(0))
+		if !m.holds {
+			nCalls, allHold := 0, true
+			detail := m.detail
+			for _, g := range P.AllFuncs {
+				for _, c := range callsTo(g, vs) {
+					nCalls++
+					var mc forAllMemo
+					bindCall(c, vs, func() { mc = fa.inFn(vs, AcceptTrue(0)) })
+					if !mc.holds {
+						allHold = false
+						detail = "called from " + FuncKey(g) + ": " + mc.detail
+					}
+				}
+			}
+			m.holds, m.detail = nCalls > 0 && allHold, detail
+		}
 		R.decide(rule, FuncKey(vs)+":all-names", "the structure check accepts only if the response of every name in secretNames is non-nil", m.holds, m.detail, P.Pos(vs.Pos()))
 		for _, f := range []string{"Cr", "Cu", "Nu", "Challenge"} {
 			f := f
